@@ -150,6 +150,10 @@ package verifspec
 // removed; a function the overlay does not mention (and whose receiver type is not purged) stays exactly as it was; and
 // whenever a function matched at all, the file is cleaned up afterwards (removals finalised, unused imports pruned) --
 // also when nothing was removed, because a kept or re-signed original may have lost the last use of an import.
+//@ extern go/token.Pos.IsValid
+//@   param p
+//@   assigns nothing
+//@   ensures result == (p != 0)
 //@ func build.augmentOriginalFile
 //@ property C12
 //@   requires file != nil
@@ -172,6 +176,9 @@ package verifspec
 //@   loop 2 invariant forall(k, 0, $i1, typeis(old(file.Decls)[k], "*go/ast.FuncDecl") && !has(overrides, funcKeyOf(ref(old(file.Decls)[k]))) && !(recvKeyLen(ref(old(file.Decls)[k])) > 0 && has(overrides, recvKeyOf(ref(old(file.Decls)[k]))) && overrides[recvKeyOf(ref(old(file.Decls)[k]))].purgeMethods) ==> file.Decls[k] == old(file.Decls)[k])
 //@   loop 2 invariant forall(k, $i1, len(file.Decls), file.Decls[k] == old(file.Decls)[k])
 //@   loop 2 invariant forall(k, 0, $i1, typeis(old(file.Decls)[k], "*go/ast.FuncDecl") && has(overrides, funcKeyOf(ref(old(file.Decls)[k]))) && (overrides[funcKeyOf(ref(old(file.Decls)[k]))].keepOriginal || overrides[funcKeyOf(ref(old(file.Decls)[k]))].overrideSignature != nil) ==> file.Decls[k] == old(file.Decls)[k])
+// A value spec of a grouped constant declaration is never removed (its position determines iota and what an implicit
+// repetition repeats): at the end of every iteration of the specs loop the slot still holds the spec.  64 = token.CONST.
+//@   loop 2 hint step: assert d.Tok == 64 && d.Lparen != 0 && typeis(spec, "*go/ast.ValueSpec") ==> d.Specs[$i2 - 1] == spec
 //@   loop 3 invariant 0 <= $i1 && $i1 < len(file.Decls) && len(file.Decls) == len(old(file.Decls)) && !finalized && !pruned
 //@   loop 3 invariant forall(k, 0, $i1, typeis(old(file.Decls)[k], "*go/ast.FuncDecl") && has(overrides, funcKeyOf(ref(old(file.Decls)[k]))) ==> anyChange)
 //@   loop 3 invariant forall(k, 0, $i1, typeis(old(file.Decls)[k], "*go/ast.FuncDecl") && has(overrides, funcKeyOf(ref(old(file.Decls)[k]))) && !overrides[funcKeyOf(ref(old(file.Decls)[k]))].keepOriginal && overrides[funcKeyOf(ref(old(file.Decls)[k]))].overrideSignature == nil ==> file.Decls[k] == nil)
@@ -200,6 +207,13 @@ package verifspec
 //@   loop 6 invariant forall(k, 0, $i1, typeis(old(file.Decls)[k], "*go/ast.FuncDecl") && !has(overrides, funcKeyOf(ref(old(file.Decls)[k]))) && !(recvKeyLen(ref(old(file.Decls)[k])) > 0 && has(overrides, recvKeyOf(ref(old(file.Decls)[k]))) && overrides[recvKeyOf(ref(old(file.Decls)[k]))].purgeMethods) ==> file.Decls[k] == old(file.Decls)[k])
 //@   loop 6 invariant forall(k, $i1, len(file.Decls), file.Decls[k] == old(file.Decls)[k])
 //@   loop 6 invariant forall(k, 0, $i1, typeis(old(file.Decls)[k], "*go/ast.FuncDecl") && has(overrides, funcKeyOf(ref(old(file.Decls)[k]))) && (overrides[funcKeyOf(ref(old(file.Decls)[k]))].keepOriginal || overrides[funcKeyOf(ref(old(file.Decls)[k]))].overrideSignature != nil) ==> file.Decls[k] == old(file.Decls)[k])
+//@   loop 7 invariant 0 <= $i1 && $i1 < len(file.Decls) && len(file.Decls) == len(old(file.Decls)) && !finalized && !pruned
+//@   loop 7 invariant forall(k, 0, $i1, typeis(old(file.Decls)[k], "*go/ast.FuncDecl") && has(overrides, funcKeyOf(ref(old(file.Decls)[k]))) ==> anyChange)
+//@   loop 7 invariant forall(k, 0, $i1, typeis(old(file.Decls)[k], "*go/ast.FuncDecl") && has(overrides, funcKeyOf(ref(old(file.Decls)[k]))) && !overrides[funcKeyOf(ref(old(file.Decls)[k]))].keepOriginal && overrides[funcKeyOf(ref(old(file.Decls)[k]))].overrideSignature == nil ==> file.Decls[k] == nil)
+//@   loop 7 invariant forall(k, 0, $i1, typeis(old(file.Decls)[k], "*go/ast.FuncDecl") && !has(overrides, funcKeyOf(ref(old(file.Decls)[k]))) && recvKeyLen(ref(old(file.Decls)[k])) > 0 && has(overrides, recvKeyOf(ref(old(file.Decls)[k]))) && overrides[recvKeyOf(ref(old(file.Decls)[k]))].purgeMethods ==> file.Decls[k] == nil && anyChange)
+//@   loop 7 invariant forall(k, 0, $i1, typeis(old(file.Decls)[k], "*go/ast.FuncDecl") && !has(overrides, funcKeyOf(ref(old(file.Decls)[k]))) && !(recvKeyLen(ref(old(file.Decls)[k])) > 0 && has(overrides, recvKeyOf(ref(old(file.Decls)[k]))) && overrides[recvKeyOf(ref(old(file.Decls)[k]))].purgeMethods) ==> file.Decls[k] == old(file.Decls)[k])
+//@   loop 7 invariant forall(k, $i1, len(file.Decls), file.Decls[k] == old(file.Decls)[k])
+//@   loop 7 invariant forall(k, 0, $i1, typeis(old(file.Decls)[k], "*go/ast.FuncDecl") && has(overrides, funcKeyOf(ref(old(file.Decls)[k]))) && (overrides[funcKeyOf(ref(old(file.Decls)[k]))].keepOriginal || overrides[funcKeyOf(ref(old(file.Decls)[k]))].overrideSignature != nil) ==> file.Decls[k] == old(file.Decls)[k])
 //@   oncall finalizeRemovals: assert forall(k, 0, len(file.Decls), typeis(old(file.Decls)[k], "*go/ast.FuncDecl") && has(overrides, funcKeyOf(ref(old(file.Decls)[k]))) && !overrides[funcKeyOf(ref(old(file.Decls)[k]))].keepOriginal && overrides[funcKeyOf(ref(old(file.Decls)[k]))].overrideSignature == nil ==> file.Decls[k] == nil)
 //@   oncall finalizeRemovals: assert forall(k, 0, len(file.Decls), typeis(old(file.Decls)[k], "*go/ast.FuncDecl") && !has(overrides, funcKeyOf(ref(old(file.Decls)[k]))) && recvKeyLen(ref(old(file.Decls)[k])) > 0 && has(overrides, recvKeyOf(ref(old(file.Decls)[k]))) && overrides[recvKeyOf(ref(old(file.Decls)[k]))].purgeMethods ==> file.Decls[k] == nil)
 //@   oncall finalizeRemovals: assert forall(k, 0, len(file.Decls), typeis(old(file.Decls)[k], "*go/ast.FuncDecl") && !has(overrides, funcKeyOf(ref(old(file.Decls)[k]))) && !(recvKeyLen(ref(old(file.Decls)[k])) > 0 && has(overrides, recvKeyOf(ref(old(file.Decls)[k]))) && overrides[recvKeyOf(ref(old(file.Decls)[k]))].purgeMethods) ==> file.Decls[k] == old(file.Decls)[k])
